@@ -117,6 +117,7 @@ fn all_opts() -> Opts {
     o.blank_wrappers = true;
     o.first_line_empty_pct = 10;
     o.unwrap_pct = 50;
+    o.join_pct = 5;
     o
 }
 
@@ -131,6 +132,7 @@ fn hostile_opts() -> Opts {
     o.unwrap_pct = 65;
     o.max_top = 3;
     o.odd_conditions = false;
+    o.join_pct = 20;
     o
 }
 
@@ -429,6 +431,8 @@ fn deep_nesting(ctx: &mut Ctx) {
             cases.push(JunkCase { src: format!("{}x\n{}", open.repeat(k), close.repeat(k)), cfg: cfg.clone() });
             cases.push(JunkCase { src: format!("{ds}zz{de}").repeat(k), cfg: cfg.clone() });
             cases.push(JunkCase { src: format!("{}{}", format!("{ds}tl to='2999-01-01 00:00:00'{de}").repeat(k), format!("{ds}/zz{de}").repeat(k)), cfg: cfg.clone() });
+            // only stray closers (each one stays "open" as a pseudo element until the end of the file), then a well-formed ready element
+            cases.push(JunkCase { src: format!("{}{open}x\n{close}", format!("{ds}/zz{de}\n").repeat(k)), cfg: cfg.clone() });
         }
     }
     let n = cases.len();
